@@ -58,6 +58,9 @@ func c07RandomScenario(r *rand.Rand) c07Sc {
 			sc.Ctx = "pre"
 		}
 	}
+	if !sc.hasReducer() && sc.Entry != "ForEach" {
+		sc.Ctx = "" // Finish / FinishVoid take no options
+	}
 	sc.Items = make([]c07It, sc.N)
 	nacts := 0
 	if mode > 3 && sc.N > 0 {
@@ -177,7 +180,7 @@ const c07RandomRule = "seeded random racing scenarios: entry point x workers {Wi
 func TestVerifC07Random(t *testing.T) {
 	m := vk.New(t, "C07", c07RandomRule)
 	defer m.Done()
-	c07RunRandom(t, m, c07N(12000, 400000, 30000), "random")
+	c07RunRandom(t, m, c07N(30000, 600000, 30000), "random")
 }
 
 // TestVerifC07CtxAlreadyDone: the context is done before the call is made; the statement
@@ -284,7 +287,7 @@ func TestVerifC07CtxAlreadyDone(t *testing.T) {
 func TestVerifC07RaceRandom(t *testing.T) {
 	m := vk.New(t, "C07", "under the race detector: "+c07RandomRule)
 	defer m.Done()
-	c07RunRandom(t, m, vk.N(2500, 60000), "race-random")
+	c07RunRandom(t, m, vk.N(5000, 80000), "race-random")
 }
 
 func TestVerifC07RaceGated(t *testing.T) {
